@@ -648,62 +648,133 @@ func c06R2File(c *Ctx) {
 func c06R2Tag(c *Ctx) {
 	const R = "C06.R2.refuse-before-mutate"
 	type t struct{ pkg, name string }
+	isTagEffect := func(n string) bool {
+		return n == "(~/content.Tagger).Tag" || n == "(*~/internal/resolver.Memory).Tag" || n == "(~/content.TagResolver).Tag"
+	}
 	for _, x := range []t{{"content/memory", "Store.Tag"}, {"content/oci", "Store.Tag"}, {"content/file", "Store.Tag"}} {
 		fn := c06Fn(c, R, x.pkg, x.name)
 		if fn == nil {
 			continue
 		}
 		tn := FnName(fn)
-		var descParam *ssa.Parameter
-		for _, p := range fn.Params {
-			if c05IsOCIDescriptor(p.Type()) {
-				descParam = p
-			}
-		}
-		var exists []ssa.CallInstruction
-		var tags []ssa.Instruction
-		for _, call := range Calls(fn, func(string) bool { return true }) {
-			if _, isDefer := call.(*ssa.Defer); isDefer {
-				continue
-			}
-			n := CalleeName(call)
-			switch {
-			case strings.HasSuffix(n, ").Exists"):
+		descParam := c07DescParam(fn)
+		root := c05Root(fn)
+		envs := c05TreeEnvs(root, 3)
+		// existence checks of the descriptor being tagged, at any level of the call tree
+		existsIn := func(e *c05Env) []ssa.CallInstruction {
+			var out []ssa.CallInstruction
+			for _, call := range Calls(e.Fn, func(n string) bool { return strings.HasSuffix(n, ").Exists") }) {
+				if _, isDefer := call.(*ssa.Defer); isDefer {
+					continue
+				}
 				for _, a := range call.Common().Args {
-					if c05IsOCIDescriptor(a.Type()) && c05ParamOf(a) == descParam && descParam != nil {
-						exists = append(exists, call)
+					if c05IsOCIDescriptor(a.Type()) && descParam != nil {
+						if w, at := e.up(a); at.isRoot() && c05ParamOf(w) == descParam {
+							out = append(out, call)
+						}
 					}
 				}
-			case n == "(~/content.Tagger).Tag", n == "(*~/internal/resolver.Memory).Tag", n == "(*~/content/oci.Store).tag":
-				tags = append(tags, call.(ssa.Instruction))
 			}
+			return out
 		}
-		if len(exists) == 0 || len(tags) == 0 {
-			c.Violation(R, tn+"|tag-only-existing-content", fn.Pos(), ifelse(len(exists) == 0, "Tag no longer checks that the described content exists", "Tag no longer reaches the tag resolver"))
-			continue
-		}
-		var present, absent []Edge
-		for _, ex := range exists {
-			if v := ResultOf(ex, 0); v != nil {
-				te, fe := BoolTests(fn, Aliases(v))
-				present, absent = append(present, te...), append(absent, fe...)
+		present := c05PassSpec{Success: true, Edges: func(e *c05Env) []Edge {
+			var out []Edge
+			for _, ex := range existsIn(e) {
+				if v := ResultOf(ex, 0); v != nil {
+					te, _ := BoolTests(e.Fn, Aliases(v))
+					out = append(out, te...)
+				}
 			}
-		}
+			return out
+		}}
+		noErr := c05PassSpec{Success: true, Edges: func(e *c05Env) []Edge {
+			var out []Edge
+			for _, ex := range existsIn(e) {
+				out = append(out, c05NilEdgesOf(ex)...)
+			}
+			return out
+		}}
+		nExists, nTags := 0, 0
+		var firstExists, firstTag token.Pos
 		ok := true
-		for _, tg := range tags {
-			if !MustPass(tg, newCut().Edges(present...)) {
-				ok = false
+		effectsAt := map[*c05Env][]ssa.Instruction{}
+		for _, e := range envs {
+			if ex := existsIn(e); len(ex) > 0 {
+				nExists += len(ex)
+				if !firstExists.IsValid() || e.isRoot() {
+					firstExists = ex[0].Pos()
+				}
 			}
-			for _, ex := range exists {
-				if !MustPass(tg, newCut().Edges(c05NilEdgesOf(ex)...)) {
-					ok = false
+			for _, call := range Calls(e.Fn, isTagEffect) {
+				if _, isDefer := call.(*ssa.Defer); isDefer {
+					continue
+				}
+				nTags++
+				if !firstTag.IsValid() || e.isRoot() {
+					firstTag = call.Pos()
+				}
+				for _, sp := range []c05PassSpec{present, noErr} {
+					dominated := false
+					var tgt ssa.Instruction = call.(ssa.Instruction)
+					for lv := e; lv != nil; lv = lv.Parent {
+						ct := c05PassCut(lv, sp)
+						if (len(ct.edges) > 0 || len(ct.instrs) > 0) && MustPass(tgt, ct) {
+							dominated = true
+						}
+						if lv.Call == nil {
+							break
+						}
+						tgt = lv.Call.(ssa.Instruction)
+					}
+					if !dominated {
+						ok = false
+					}
+				}
+				var tgt ssa.Instruction = call.(ssa.Instruction)
+				for lv := e; lv != nil; lv = lv.Parent {
+					effectsAt[lv] = append(effectsAt[lv], tgt)
+					if lv.Call == nil {
+						break
+					}
+					tgt = lv.Call.(ssa.Instruction)
 				}
 			}
 		}
-		c.Check(R, tn+"|tag-only-existing-content", tags[0].Pos(), ok,
+		if nExists == 0 || nTags == 0 {
+			c.Violation(R, tn+"|tag-only-existing-content", fn.Pos(), ifelse(nExists == 0, "Tag no longer checks that the described content exists (neither itself nor in a helper it calls)", "Tag no longer reaches the tag resolver"))
+			continue
+		}
+		c.Check(R, tn+"|tag-only-existing-content", firstTag, ok,
 			ifelse(ok, "the resolver's Tag lies behind Exists()==true with a nil error", "a reference can be tagged although the content's existence was not established (Resolve would name content that Fetch cannot deliver)"))
-		ok2, why := c06Refusal(c, fn, absent, "~/errdef.ErrNotFound", tags)
-		c.Check(R, tn+"|absent-content-is-not-found", exists[0].Pos(), ok2, why)
+		ok2, why := true, "absent content yields an error wrapping ErrNotFound and reaches no tag effect"
+		nRefusals := 0
+		for _, e := range envs {
+			var absent []Edge
+			for _, ex := range existsIn(e) {
+				if v := ResultOf(ex, 0); v != nil {
+					_, fe := BoolTests(e.Fn, Aliases(v))
+					absent = append(absent, fe...)
+				}
+			}
+			if len(absent) == 0 {
+				continue // the answer is merely forwarded at this level
+			}
+			nRefusals++
+			if o, w := c06Refusal(c, e.Fn, absent, "~/errdef.ErrNotFound", effectsAt[e]); !o {
+				ok2, why = false, w
+			}
+			for lv := e; lv.Parent != nil && lv.Call != nil; lv = lv.Parent {
+				if ErrOf(lv.Call) == nil {
+					ok2, why = false, "the verdict of "+FnName(lv.Fn)+" is discarded"
+				} else if r := ErrFlow(lv.Call, ErrFlowOpts{}); !r.OK {
+					ok2, why = false, r.Detail
+				}
+			}
+		}
+		if nRefusals == 0 {
+			ok2, why = false, "the result of the existence check is never tested"
+		}
+		c.Check(R, tn+"|absent-content-is-not-found", firstExists, ok2, why)
 	}
 }
 
@@ -746,7 +817,9 @@ func c06R2Resolve(c *Ctx) {
 		n := 0
 		for _, e := range c05TreeEnvs(c05Root(f), 3) {
 			g := e.Fn
-			for _, call := range Calls(g, func(n string) bool { return n == "(~/content.Resolver).Resolve" || n == "(*~/internal/resolver.Memory).Resolve" }) {
+			for _, call := range Calls(g, func(n string) bool {
+				return n == "(~/content.Resolver).Resolve" || n == "(*~/internal/resolver.Memory).Resolve"
+			}) {
 				n++
 				r := ErrFlow(call, ErrFlowOpts{Tolerated: x.tol})
 				okTol := true
